@@ -100,6 +100,9 @@ Definition cast_needs_parens (e : expr) : bool :=
   | EUnary _ (OrUn _ (AndUn _ (RelUn _ (AddUn _ (MulUn _ _))))) => false
   end.
 
+Definition reads_field (m : member) : bool :=
+  match m with Member _ _ ms => existsb (fun x => match x with MPAccess _ _ _ => true | _ => false end) ms end.
+
 Fixpoint sql_expr (e : expr) : sqlres :=
   match e with
   | ETernary _ c t f =>
@@ -136,8 +139,13 @@ with sql_mult (c : mult) : sqlres :=
 with sql_unary (u : unary) : sqlres :=
   match u with
   | UnMember _ m => sql_member m
-  | UnNot _ nots m => let$ ms := sql_member m in SqlOk ([40] ++ oplist_sql 33 nots ++ ms ++ [41])
-  | UnNeg _ negs m => let$ ms := sql_member m in SqlOk ([40] ++ oplist_sql 45 negs ++ ms ++ [41])
+  (* prefix operators bind tighter than -> / ->> : a chain that reads a field is parenthesised first *)
+  | UnNot _ nots m =>
+      let$ ms := sql_member m in
+      SqlOk ([40] ++ oplist_sql 33 nots ++ (if reads_field m then [40] ++ ms ++ [41] else ms) ++ [41])
+  | UnNeg _ negs m =>
+      let$ ms := sql_member m in
+      SqlOk ([40] ++ oplist_sql 45 negs ++ (if reads_field m then [40] ++ ms ++ [41] else ms) ++ [41])
   end
 with sql_member (m : member) : sqlres :=
   match m with
@@ -162,16 +170,19 @@ with sql_member (m : member) : sqlres :=
             end)
       | _ =>
           let$ ps := sql_primary p in
-          (fix go (ms : list mprime) (acc : chars) : sqlres :=
+          (* [after]: the text so far ends in a field access; a subscript binds tighter than ->,
+             so the chain is parenthesised before it is indexed *)
+          (fix go (ms : list mprime) (acc : chars) (after : bool) : sqlres :=
              match ms with
              | [] => SqlOk acc
              | MPAccess _ _ name :: r =>
-                 go r ([40] ++ acc ++ [41] ++ (match r with [] => #"->>'" | _ => #"->'" end) ++ name ++ [39])
+                 go r ([40] ++ acc ++ [41] ++ (match r with [] => #"->>'" | _ => #"->'" end) ++ name ++ [39]) true
              | MPCall _ args :: r =>
-                 call_args args (fun ts => go r (acc ++ [40] ++ join_sql #", " ts ++ [41]))
+                 call_args args (fun ts => go r (acc ++ [40] ++ join_sql #", " ts ++ [41]) false)
              | MPIndex _ e :: r =>
-                 let$ es := sql_expr e in go r ([40] ++ acc ++ [91] ++ es ++ [93; 41])
-             end) ms ps
+                 let$ es := sql_expr e in
+                 go r ([40] ++ (if after then [40] ++ acc ++ [41] else acc) ++ [91] ++ es ++ [93; 41]) false
+             end) ms ps false
       end
   end
 with sql_primary (p : primary) : sqlres :=
